@@ -17,11 +17,11 @@ def run(ctx):
     rep = vlib.build_harness(lib, "c02_replay", ["c02_replay.cpp"])
     cases = os.path.join(ctx.tmp, "c02.cases")
     r = ctx.model("FiniteMap", "MC_FiniteMap_quick", emit_to=cases, timeout=600, xmx="4g", workers=4, ignore_cov=("Union", "Inter", "Diff"))
-    ctx.replay(rep, cases, label="R/FiniteMap", timeout=900, jobs=8)
+    ctx.replay(rep, cases, label="R/FiniteMap", timeout=900, jobs=12)
     r = ctx.model("FiniteMap", "MC_FiniteSet_quick", emit_to=cases, timeout=600, xmx="4g", workers=4, ignore_cov=("Index",))
-    ctx.replay(rep, cases, label="R/FiniteSet", timeout=900, jobs=8)
+    ctx.replay(rep, cases, label="R/FiniteSet", timeout=900, jobs=12)
     r = ctx.model("HashChains", "MC_HashChains_quick", emit_to=cases, timeout=600, xmx="4g", workers=4)
-    ctx.replay(rep, cases, label="R/HashChains", timeout=900, jobs=8, args=["--strict-shape"])
+    ctx.replay(rep, cases, label="R/HashChains", timeout=900, jobs=12, args=["--strict-shape"])
 
 
 def replay(path):
